@@ -710,6 +710,12 @@ func (t *c16Tree) queries() []c16Query {
 	} else {
 		file()
 		base()
+		if t.HasBase {
+			// when the base's accumulator is merged into the parent's, the ids of the resources loaded BEFORE the base are
+			// computed again (resid.NewGvk): under a schema the base has just selected this is what initialises it. In a
+			// build that succeeds the later stages ask the same questions anyway; in one that fails right after, they do not.
+			file()
+		}
 	}
 	if t.Fail == "missing-file" {
 		return append(qs, c16Query{K: "fail"})
